@@ -631,7 +631,13 @@ def compare_batch13(ctx, batch13):
         ctx.count('corr_c13.load')
         if 'err' in rep:
             if rep['err'] == 'unmodelled':
-                raise common.MachineryError('generator produced an input outside the model: %r' % (inp,))
+                # over the unit table of the working tree some value is not a plain number (merging those is outside the model
+                # of _do_load).  The generator writes only units of the right kind, so this is the unit table's doing; the
+                # property oracle above has reported it if the implementation shows it too
+                ctx.count('corr_c13.load_unmodelled')
+                if st == 'ok' and all(o is None or L.all_plain(o) for o in res.values()):
+                    ctx.disagree('corr:c13.load', inp, res, rep)
+                continue
             if st != 'err' or res != rep['err']:
                 ctx.disagree('corr:c13.load', inp, res if st == 'err' else 'loaded', rep)
             continue
